@@ -31,7 +31,8 @@ def run(ctx):
     # a well-formed stream must never be reported as malformed: the frame reader's memo (shared with C02) is what turns a
     # correct byte sequence delivered in pieces into H3_FRAME_ERROR when it goes stale
     shared.frame_decoder_memo(ctx, "C07-b")
-    _c17.errors_not_swallowed(ctx, "C07-b")
+    if "h3_quinn" in ctx.prog.crates:        # (the feature-less h3-only configuration has no adapter)
+        _c17.errors_not_swallowed(ctx, "C07-b")
     shared.bufrecv_poll_data(ctx, "C07-b")
     prog = ctx.prog
     # ------------------------------------------------------------------ C07-a handle_quic_stream_error
@@ -105,6 +106,47 @@ def run(ctx):
                       "validly encoded but malformed trailers lead to codes %s, connection-fatal call: %s; a malformed message must be "
                       "refused on that stream only" % (sorted(codes), fatal_in(prog, p)), "", None, p.describe())
 
+    # a failure of the transport on ONE stream (reset, STOP_SENDING, a write that is refused) has the type StreamErrorIncoming; code
+    # that holds such a value hands it to CloseStream::handle_quic_stream_error (tabled above) and never raises a connection error
+    # itself: (1) no closure / function taking a StreamErrorIncoming calls a connection-fatal function, (2) no path that found a
+    # Result<_, StreamErrorIncoming> to be Err goes on to one
+    SEI = "h3::quic::StreamErrorIncoming"
+    nsei = 0
+    for b in prog.bodies:
+        # (the control, QPACK and grease streams are the connection's own: losing one of them IS a connection error; this clause is
+        # about the per-request handles)
+        if not b.key.startswith(("h3::connection::RequestStream::", "h3::client::stream::", "h3::server::stream::", "h3::server::request::",
+                                 "h3::client::connection::SendRequest::", "<h3::client::stream::", "<h3::server::stream::")) or b.name == "fmt":
+            continue
+        fat = [t for _, t in b.calls(*FATAL)]
+        if not fat:
+            continue
+        takes = [i for i in range(1, b.arg_count + 1) if SEI in b.local_ty(i) and "Result<" not in b.local_ty(i)]
+        nsei += 1
+        ctx.check(not takes, "C07-a", b.key, "a transport error on one stream is never raised as a connection error",
+                  "%s receives a %s and calls %s: a fault of one request stream (peer reset, STOP_SENDING, refused write) closes the whole "
+                  "connection and fails every other request" % (b.key, SEI, pa.short(fat[0].ckey or "?")), "")
+        try:
+            ps = pa.Explorer(prog, b, max_visits=1).paths()
+        except pa.PathExplosion:
+            continue
+        for p in ps:
+            fc = [i for i, e in enumerate(p.events) if e[0] == "call" and e[2].is_call(*FATAL)]
+            if not fc:
+                continue
+            dest_ty = {e[1]: (b.local_ty(e[2].dest.local) if e[2].dest.is_local() else "") for e in p.events if e[0] == "call"}
+            bad = []
+            for t in p.tests:
+                if t[3][0] != "discr" or t[2] not in ("Err", "Break"):
+                    continue
+                root, names = dp.root_of(t[3])
+                if root and root[0] == "call" and SEI in dest_ty.get(root[2], "") and not any(n.startswith("<Err>") for n in names):
+                    bad.append(pa.short(root[1]))
+            ctx.check(not bad, "C07-a", b.key, "a transport error on one stream is never raised as a connection error",
+                      "%s calls a connection-fatal function on a path on which the stream operation %s had failed with a %s: a fault of one "
+                      "request stream closes the whole connection" % (b.key, bad[:1], SEI), "", None, p.describe())
+    ctx.floor("C07-a", "per-request functions that raise connection errors examined for transport-error inputs", nsei, 8)
+
     # ------------------------------------------------------------------ C07-b errors never become clean EOF
     for key, cal in (("h3::stream::BufRecvStream::poll_read", "h3::quic::RecvStream::poll_data"),
                      ("<h3::stream::BufRecvStream as h3::quic::RecvStream>::poll_data", "h3::quic::RecvStream::poll_data")):
@@ -160,8 +202,37 @@ def run(ctx):
             r_ = ps[0].ret
             ok = r_ is not None and r_[0] == "call" and pa.short(r_[1]) == "map_err" and "Poll" in r_[1] and len(r_[2]) == 2 and \
                 r_[2][0][0] == "call" and r_[2][0][1].endswith("BufRecvStream::poll_read") and r_[2][1][0] == "fn" and r_[2][1][1].endswith("FrameStreamError::Quic")
+        if not ok:
+            # form-agnostic reading (`ready!(..).map_err(FrameStreamError::Quic)?`, `?` on the Poll, ..): every path is classified by what
+            # it learnt about poll_read; the error path must return the transport's error wrapped in Quic, the others pass through
+            def quic_err(p):
+                sh = p.ret_shape()
+                if sh in ("Ready(Err(FrameStreamError::Quic))", "Err(FrameStreamError::Quic)"):
+                    return True
+                r_ = p.ret
+                if r_ is not None and r_[0] == "errconv":
+                    r_ = r_[1]
+                return r_ is not None and r_[0] == "call" and pa.short(r_[1]) == "map_err" and len(r_[2]) == 2 and r_[2][1][0] == "fn" and \
+                    r_[2][1][1].endswith("FrameStreamError::Quic") and (pa.head_call(r_[2][0])[0] or "").endswith("BufRecvStream::poll_read")
+            seen = {}
+            good = True
+            for p in ps:
+                if not p.has_call("BufRecvStream::poll_read"):
+                    continue
+                oc = tuple(sorted(p.outcomes("BufRecvStream::poll_read")))
+                seen[oc] = p.ret_shape()
+                if oc == ("Err", "Ready"):
+                    good &= quic_err(p)
+                elif oc == ("Ok", "Ready"):
+                    good &= p.ret_shape().startswith("Ready(Ok(")
+                elif oc == ("Pending",):
+                    good &= p.ret_shape() == "Pending"
+                else:
+                    good = False
+            ok = good and set(seen) == {("Err", "Ready"), ("Ok", "Ready"), ("Pending",)}
+            rows = rows or seen
         ctx.check(ok, "C07-b", fs.key, "stream error -> FrameStreamError::Quic(e), never `end`",
-                  "try_recv rows: %s" % {k: v.ret_shape() for k, v in rows.items()}, "")
+                  "try_recv rows: %s" % {k: (v.ret_shape() if hasattr(v, "ret_shape") else v) for k, v in rows.items()}, "")
 
     # ------------------------------------------------------------------ C07-c type facts
     handles = ["h3::connection::RequestStream", "h3::client::stream::RequestStream", "h3::server::stream::RequestStream", "h3::frame::FrameStream",
